@@ -426,6 +426,26 @@ def evaluatePolysOver (rops : Ops β (Array β)) (B : BaseOps β) (zero : β) (m
     | none => none
     | some offsets => rowMatrixFromPolys rops B.mul zero maxLoop N polys polySize offsets tw
 
+/-! ## the records the driver runs the model with: raw words of a base field -/
+
+/-- base-field operations on raw words of the field implementation `I` (Winter/Model/Field.lean) -/
+def BaseOps.ofImpl (I : Model.FieldImpl) : BaseOps Nat where
+  one := I.new 1
+  mul := I.mul
+  exp := I.exp
+  inv := fun x => match I.inv x with
+    | .done r => some r
+    | .out => none
+  ofNat := I.new
+  isZero := fun x => I.eq x (I.new 0)
+  twoAdicity := I.twoAdicity
+  rootOfUnity := I.rootOfUnity
+
+/-- an element of extension degree `d` as the array of its `d` base coordinates (raw words): `+`, `-`,
+    `mul_base` and multiplication by an embedded base element act coordinate-wise; also the rows `[B; N]` -/
+def coordOps (I : Model.FieldImpl) : Ops Nat (Array Nat) :=
+  rowOps I.add I.sub I.mul (fun x => I.eq x (I.new 0))
+
 /-- `RowMatrix::row(row_idx)` as base-field cells -/
 def RowMat.row (m : RowMat β) (r : Nat) : Option (Array β) :=
   if m.rowWidth = 0 then none else
